@@ -16,7 +16,7 @@ import textwrap
 
 import z3
 
-from .values import (IntSeq, Unsupported, VArr, VBool, VChar, VCls, VCStr, VData, VFloat, VInt,
+from .values import (IntSeq, Unsupported, VArr, VBool, VChar, VCls, VCStr, VData, VFloat, VInt, VName, name_code,
                      VNone, VOpaque, VPy, VRef, VSeq, VSlice, VStr, VTuple, Val, str_len, to_seq)
 
 _fresh = [0]
@@ -132,6 +132,14 @@ def val_eq(a, b):
         if a.oid == b.oid:
             return z3.BoolVal(True)
         raise Unsupported("== between distinct heap objects")
+    if isinstance(a, VName) and isinstance(b, VCStr):
+        return a.e == name_code(b.s)
+    if isinstance(b, VName) and isinstance(a, VCStr):
+        return b.e == name_code(a.s)
+    if (isinstance(a, VInt) and isinstance(b, VStr)) or (isinstance(a, VStr) and isinstance(b, VInt)):
+        # names of types / fields are abstracted to integers in the ADT encodings: comparing one with a string constant is NOT False.
+        # (found by a seeded change that looked names up in a table of string pairs and was "proved" because the lookup evaluated to False)
+        raise Unsupported("an integer (possibly an abstracted name) is compared with a string constant")
     if type(a) is not type(b) and not (isinstance(a, VStr) and isinstance(b, VStr)):
         kinds = (VInt, VBool, VStr, VNone, VTuple, VData, VFloat)
         if isinstance(a, kinds) and isinstance(b, kinds):
@@ -865,7 +873,7 @@ def data_attr(v, name):
     for ctor, fields in owners:
         srt = dict(fields)[name]
         e = v.adt.accessor(ctor, name, v.e)
-        val = VData(e, v.adt) if srt == "self" else VInt(e) if srt == "int" else VBool(e)
+        val = VData(e, v.adt) if srt == "self" else (VName(e) if name == "name" else VInt(e)) if srt == "int" else VBool(e)
         out = val if out is None else merge(v.adt.recognizer(ctor, v.e), val, out)
     return out
 
